@@ -29,12 +29,46 @@ def _load_corpus(prop):
         return json.load(fh)
 
 
+def _load_seeded(prop):
+    """Seeded changes written by the adversarial rounds (seeded/<id>/): each
+    is a mutant for the property it was written against."""
+    out = []
+    root = os.path.join(VERIF, 'seeded')
+    if not os.path.isdir(root):
+        return out
+    for sid in sorted(os.listdir(root)):
+        mp = os.path.join(root, sid, 'meta.json')
+        pp = os.path.join(root, sid, 'patch.diff')
+        if not (os.path.exists(mp) and os.path.exists(pp)):
+            continue
+        with open(mp) as fh:
+            meta = json.load(fh)
+        if meta.get('property') != prop or meta.get('selftest') is False:
+            continue
+        out.append({'name': 'seeded/' + sid, 'kind': 'mutant',
+                    'patch': pp, 'expect': prop})
+    return out
+
+
 def _run_one(args):
     prop, base, entry, idx = args
     d = tempfile.mkdtemp(prefix='dsa-st-%s-%d-' % (prop, idx),
                          dir=os.path.dirname(base))
     try:
         shutil.copytree(os.path.join(base, 'dassh'), os.path.join(d, 'dassh'))
+        if 'patch' in entry:
+            r = subprocess.run(['patch', '-p1', '-s', '-f', '-d', d, '-i',
+                                entry['patch']], capture_output=True,
+                               text=True)
+            if r.returncode != 0:
+                return idx, 'skipped', 'patch does not apply'
+            r = subprocess.run(
+                [sys.executable, os.path.join(VERIF, 'check'), prop,
+                 '--repo', d, '--tier', 'quick'], capture_output=True,
+                text=True, timeout=300)
+            viol = [l.strip() for l in r.stdout.splitlines()
+                    if 'VIOLATED' in l]
+            return idx, r.returncode, viol
         path = os.path.join(d, entry['file'])
         with open(path) as fh:
             s = fh.read()
@@ -57,7 +91,7 @@ def _run_one(args):
 
 
 def run(ctx, prop):
-    corpus = _load_corpus(prop)
+    corpus = _load_corpus(prop) + _load_seeded(prop)
     if not corpus:
         ctx.extra['selftest'] = 'no corpus for this property'
         return
